@@ -40,6 +40,53 @@ CHECKS = {
         "reductions are judged on real runs along the exact model.",
    ref="DESIGN.md §5 C06",
    note="Reductions are compared on real runs only where every exact greedy choice is unique by more than the budget."),
+ "C02": dict(
+   cat="proof", technique="Lean 4 theorems (normal equations + injective sensor rows => coefficients recovered) over a certifying exact rational solver + differential against real predict",
+   text="recon_exact / recon_exact_square / more_sensors_injective / independent_rows_injective prove that in-span signals are reproduced at every location whenever the selected rows have full column rank "
+        "(for QR via C03's independence of greedy pivots); the exact model (which accepts a solution only after an exact multiplication check: solveExact_sound) must return the signal itself and the real predict is compared within a conditioning budget.",
+   ref="DESIGN.md §5 C02",
+   note="PARTIAL on the clause 'up to rounding error proportional to conditioning': IEEE-754 and LAPACK (gesv, gelsd) are not modelled; that clause is validated numerically (|error| <= 1e-7*(1+|x|)*kappa, kappa > 1e6 skipped and counted)."),
+ "C07": dict(
+   cat="proof", technique="Lean 4 theorems (least-squares optimality, interpolation, linearity, minimum-norm uniqueness from the normal equations) + differential against real predict incl. shapes",
+   text="predict_in_span, predict_least_squares, predict_interpolates, predict_linear, predict_linear_minnorm, predictExact_rows; real predict on measurement arrays in/out of the span, 1-D and 2-D, n_sensors below/equal/above n_modes "
+        "is compared with the exact model and checked for span membership, interpolation, superposition, shapes and 1-D/row-batch equality.",
+   ref="DESIGN.md §5 C07",
+   note="PARTIAL on rounding: LAPACK's contract (solution / minimum-norm least-squares solution) is a parameter; budget 1e-7*scale*kappa^2."),
+ "C08": dict(
+   cat="proof", technique="Lean 4 theorems about the selection model (sorted permutation, top-n maximality, prefix, threshold iff, default threshold vs Real.sqrt) + history differential with injected exact coefficient arrays",
+   text="argsortDesc_perm/_sorted, topN_spec, topN_prefix, thresh_iff, thresh_antitone, thresh_zero_all, default_threshold_sq, update_count_ok, fit_count_ok, update_rejected_unchanged; histories of fit/update_sensors on the real SSPOC "
+        "(solver output and injected dyadic arrays with ties, zeros and boundary-equal thresholds) are compared with the Lean machine canonically (multiset of magnitudes).",
+   ref="DESIGN.md §5 C08",
+   note="The order of equal magnitudes is left free (numpy's argsort is not stable); the aggregation callable is a parameter whose four documented instances are compared with the model on exact inputs; sklearn solvers are parameters."),
+ "C09": dict(
+   cat="proof", technique="Lean 4 invariant over all call histories of a state machine with ghost 'trained-on' state + history differential + fresh-clone prediction oracle",
+   text="dispatch_consistent: after every history of fit(refit=T/F) / update_sensors(xy) / update_n_basis_modes the dispatch of predict matches what the classifier was last trained on; stale_flag_breaks_invariant shows the invariant "
+        "fails on the unrepaired machine; real histories are compared with the machine after every call and predictions with sklearn.clone trained from scratch.",
+   ref="DESIGN.md §5 C09",
+   note="Holds on /repo after fix commits 8968a58 (stale refit_) and d275b97 (zero sensors). The classifier, solvers and basis numerics are parameters (only what they were trained on is tracked)."),
+ "C10": dict(
+   cat="other", technique="Lean 4 theorems that the checked certificates suffice (offset identity; KKT => group-lasso optimum) + numeric certification of scikit-learn's real output",
+   text="PARTIAL by nature: the minimisers are computed by scikit-learn (OrthogonalMatchingPursuit, MultiTaskLasso), which no executable model reproduces. Lean proves binary_offset(_spread) and group_lasso_kkt_sufficient; "
+        "every real output is certified numerically (spread of Psi*s - w, support size, shapes, duality gap for alpha = l1_penalty, perturbation test, alpha read back from the solver object).",
+   ref="DESIGN.md §5 C10",
+   note="Solver correctness is trusted; certificates use 20x the solver's own tolerance; runs where MultiTaskLasso hits max_iter are skipped and counted."),
+ "C11": dict(
+   cat="proof", technique="Lean 4 theorems (column-prefix law, bound check, orthonormal => transpose is a left inverse and rank-<=k data reproduced, Gram-inverse left inverse, RP modes in the span of the examples) + exact/numeric differential on the real bases",
+   text="takeCols_takeCols/_get/_shape, rep_rejects_gt, identity_exact, orthonormal_left_inverse, rank_k_reproduced, gram_pinv_left_inverse, rp_modes_in_span; real Identity/SVD/RandomProjection/Custom bases are checked bitwise for slicing, "
+        "Identity, copy semantics and repeatability, numerically (1e-8) for orthonormality, reproduction and pinv.",
+   ref="DESIGN.md §5 C11",
+   note="PARTIAL on numerics: TruncatedSVD, GaussianRandomProjection and numpy.linalg.pinv are parameters whose contracts (orthonormal components, pinv) are validated numerically. Custom works after fix b442c2e."),
+ "C12": dict(
+   cat="proof", technique="Lean 4 theorems about exact rational shape predicates (filter in ranking order, in/out partition, closed-shape iffs, strictly-right-of-line, even-odd rule on rectangles) + exact differential with dyadic parameters",
+   text="constraintIndices_mem/_sublist, in_out_partition, circle/cylinder/parabola/ellipse iffs, line_strictly_right, gridPt_spec, polygon_rectangle; all six real shape classes x loc on image grids and dataframes are compared with the model and an "
+        "independent exact oracle, boundary points included (Ellipse/Polygon points within 1e-9 of the boundary excluded and counted).",
+   ref="DESIGN.md §5 C12",
+   note="Polygon: the even-odd rule as written is the specification (no Jordan-curve argument). Holds after fix 4aaa670 (Cylinder loc='in')."),
+ "C13": dict(
+   cat="proof", technique="Lean 4 theorems (box set/order via index transposition, half-open dataframe box, ravel/unravel inverse, module name of <identifier>.py for every identifier) + exact differential incl. real temporary files",
+   text="box_order, transposeIdx_involutive, box_set, dfBox_mem, ravel_unravel, unravel_ravel, module_name_spec, module_name_old_wrong; the real helpers, UserDefinedConstraints (equation and file) and load_functional_constraints are executed on generated inputs and files.",
+   ref="DESIGN.md §5 C13",
+   note="Python eval/__import__, numpy unravel/ravel and pandas dropna are parameters. Holds after fix 215804b (.strip('.py'))."),
  "C14": dict(
    cat="proof", technique="Lean 4 theorems about a state-machine model of SSPOR (setters last-wins, ranking untouched) + history differential vs the real object and a fresh-model oracle",
    text="selected_eq_take, setN_preserves_ranking, setN_ok_iff, setN_rejected_unchanged, setters_last_wins, ctor_fit_eq_fit_set over all setter sequences; "
@@ -58,6 +105,30 @@ CHECKS = {
         "real rankings across seeds are compared pairwise and against tailShuffle with numpy's permutation as the parameter.",
    ref="DESIGN.md §5 C16",
    note="numpy's Generator.permutation is a parameter (a permutation, a function of the seed)."),
+ "C17": dict(
+   cat="proof", technique="Lean 4 theorems about the metric definitions (relative error identity, det(T^T T) >= 0, selection matrix = row gather, model determinant) + recomputation through the public API and exact rational determinant",
+   text="rel_error_identity, det_gram_nonneg, theta_eq_gather, determinantModel_nonneg, sqErr_self; real score / reconstruction_error / relative_reconstruction_error / determinant are compared with their definitions recomputed through public predict "
+        "(on a copy with set_number_of_sensors(k)), custom score callables, and the exact determinant of the model.",
+   ref="DESIGN.md §5 C17",
+   note="PARTIAL on rounding (budgeted). numpy.linalg.det/norm are parameters."),
+ "C18": dict(
+   cat="proof", technique="Lean 4 theorems (model run reads B only through its Gram matrix; Gram invariance under right-orthogonal mixing; simulation principle => invariance under positive rescaling) + metamorphic pairs on the real optimizers and SSPOR",
+   text="run_depends_on_gram_only, gram_mul_orthogonal, row_dot_mul_orthogonal, gram_eq_of_dots, greedy_simulation, scale_invariant; real QR/CCQR/GQR(all options)/SSPOR runs are compared on exactly representable transforms "
+        "(signed permutations, Pythagorean rotations, powers of two, sensor relabellings) where the exact choices are unique.",
+   ref="DESIGN.md §5 C18",
+   note="PARTIAL: relabelling equivariance (clause c) is checked on the real code only (metamorphic), no Lean theorem; pairs with non-unique exact choices are skipped and counted."),
+ "C19": dict(
+   cat="proof", technique="Lean 4 theorems over all values of each invalid class for every guard / setter / update transition + exhaustive execution of the entry-point x value-class x life-phase table on the real objects",
+   text="sspor_ctor_spec, sspor_set_invalid/_unfitted, sspor_update_invalid/_needs_data/_too_many, sspoc_update_invalid/_neither/_unfitted, basisCtor_spec, basisRep_spec, predict_guard_spec, full_state_guard_spec, ccqr_costs_spec, gqr_option_spec, "
+        "box_contradictory (+ setN_rejected_unchanged, update_rejected_unchanged); the same table (675 cells) is executed on the real code, outcomes and before/after observables compared.",
+   ref="DESIGN.md §5 C19",
+   note="Holds after fix 3748913. One listed known finding: a fit/update on narrower data is rejected only after the basis was refitted (predictions change)."),
+ "C20": dict(
+   cat="proof", technique="Lean 4 soundness theorem for a may-alias check + obligations REGENERATED from the current source by an AST translator and re-checked by the kernel on every run + dynamic snapshot / read-only sweep",
+   text="analysis_sound (proved once): check prog = true => along every execution no protected buffer is written. harness/translate_alias.py re-derives the alias program of every package function containing an in-place write from the AST on every run; "
+        "`theorem safe_f : prog_f.check = true := by decide +kernel` is re-checked by lake. Every public entry point is also called with byte snapshots and read-only arrays.",
+   ref="DESIGN.md §5 C20",
+   note="Trusted: the translator's view/fresh/write table and the assumption that numpy/scipy/sklearn/pandas routines do not write their inputs (validated dynamically each run); flow-insensitive, name-based call resolution."),
 }
 NOT_YET = {}
 
